@@ -35,7 +35,7 @@ META = dict(
          "NaNs) stored into float and double through 14 paths (new, array/struct initializer, item, field, global, "
          "cast, API-mode and libffi argument, callback and extern \"Python\" result) from floats and __float__ objects, "
          "into both complex types part by part (+ all pairs of a 40-value subset) and into long double; every 1-byte "
-         "bytes / chosen 1-char str through cast; ~12k 80-bit long double patterns copied through 11 paths.  Bytes and "
+         "bytes / chosen 1-char str through cast; ~12.9k 80-bit long double patterns copied through 15 paths.  Bytes and "
          "read-back are compared with gcc's conversion bit for bit.",
     note="gcc 12 / x86-64 SSE2 round-to-nearest is the authority, reached through ctypes; NaN payloads are not compared; "
          "pseudo-denormal, unnormal and pseudo-NaN x87 encodings are excluded (they are not values)")
